@@ -156,6 +156,11 @@ def plan(tier):
               for lo in range(0, len(DOCS), step)]
     from vkit.props import C14
     shards += [("accepted", sym) for sym in C14.SIGMA]
+    from vkit.props import C04
+    shards += [("session", len(C04.SESSION_SEEDS) - 1, first)
+               for first in range(len(C04.SESSION_MENU))]
+    bounds["live_sessions"] = "C04's session family on the Array-of-Hashes " \
+        "seed (depth 3): only exceptions escaping a query step count here"
     bounds["accepted_texts"] = {
         "alphabet": C14.SIGMA, "max_length": 3, "contexts": C14.CONTEXTS,
         "inner_max_length": 2, "documents": ACCEPT_DOCS}
@@ -214,9 +219,29 @@ def sigof(segs):
     return "/".join(out)
 
 
+def session_shard(seed_index, first):
+    """Live sessions (C04's family: ONE Processor over every sequence of up
+    to three sets / deletes / queries on one live document); here only what
+    escapes from a query step counts."""
+    from vkit.props import C04
+    st4 = C04.session_family(seed_index, 3, first)
+    st = core.Stats(ID)
+    st.evaluations, st.transitions = st4.evaluations, st4.transitions
+    st.states, st.validated = st4.states, st4.validated
+    st.sigs = st4.sigs
+    for cls, lst in st4.fails.items():
+        if cls.startswith("session|query|crash"):
+            for f in lst:
+                st.fail(cls, f["case"], f["expected"], f["observed"])
+            st.fail_counts[cls] = st4.fail_counts[cls]
+    return st
+
+
 def run_shard(shard):
     if shard[0] == "accepted":
         return accepted_shard(shard[1])
+    if shard[0] == "session":
+        return session_shard(shard[1], shard[2])
     lo, hi = shard
     st = core.Stats(ID)
     for di in range(lo, hi):
@@ -395,6 +420,10 @@ def check_case(st, doc, text, shp, segs, ptxt):
 
 
 def replay(case):
+    if case.get("op") == "session":
+        from vkit.props import C04
+        f = C04.replay(case)
+        return f if f and f["cls"].startswith("session|query|crash") else None
     st = core.Stats(None)
     doc = corpus.load(case["doc"])
     if case.get("mode") == "edit":
